@@ -62,6 +62,9 @@ func init() {
 		if r.Intn(3) == 0 && simGrpcAvailable() {
 			c.Client = "simgrpc"
 		}
+		if r.Intn(3) == 0 {
+			c.Then = genWrites(r)
+		}
 		return c
 	}
 	createExec = func(c CreateCase, choices []int32) RunOut {
@@ -178,6 +181,44 @@ func init() {
 					fail("partial-or-mixed-content", "key-exists-after-failure", fmt.Sprintf("Create failed (%v) but the key now exists: Get -> %d bytes, err %v", e, len(got), gerr))
 				}
 			}
+			if viol == nil && len(c.Then) > 0 {
+				// whatever became of the first file, the next one is a file of its own
+				if len(c.Caps) > 0 {
+					w.SetCapacities(nil)
+				}
+				key2 := c.Key
+				if key2 == "" {
+					key2 = "second"
+				}
+				faults["second-create-after-the-first-was-closed"]++
+				f2, err := db.Create(w.Ctx, key2)
+				if err != nil {
+					fail("error-class", "second-create", "the second Create failed: "+err.Error())
+				} else {
+					var want2 []byte
+					var e2 error
+					for i, n := range c.Then {
+						chunk := payload(uint64(i)+101, n)
+						if _, err := cb.write(f2, chunk); err != nil {
+							e2 = err
+							break
+						}
+						want2 = append(want2, chunk...)
+					}
+					if cerr := f2.Close(); e2 == nil {
+						e2 = cerr
+					}
+					w.Drain()
+					got2, gerr2 := w.DB.Get(w.Ctx, key2)
+					if e2 != nil {
+						fail("error-class", "second-spurious-error", fmt.Sprintf("the second file (first one ended with %v): Write/Close failed although nothing was injected: %v", e, e2))
+					} else if gerr2 != nil {
+						fail("lost-write", "second-get-after-close", fmt.Sprintf("the second file: Close returned nil but Get fails: %v", gerr2))
+					} else if !bytes.Equal(got2, want2) {
+						fail("partial-or-mixed-content", "second-file-garbled", fmt.Sprintf("the second file (first one ended with %v): Close returned nil; Get returns %d bytes, its writes %v concatenate to %d bytes (first difference at offset %d)", e, len(got2), c.Then, len(want2), firstDiff(got2, want2)))
+					}
+				}
+			}
 			if viol != nil {
 				simrt.Stop()
 			}
@@ -207,4 +248,14 @@ func init() {
 		finishStatus(&out, res, "C12", viol, "db")
 		return out
 	}
+}
+
+func firstDiff(a, b []byte) int {
+	n := min(len(a), len(b))
+	for i := 0; i < n; i++ {
+		if a[i] != b[i] {
+			return i
+		}
+	}
+	return n
 }
